@@ -297,6 +297,27 @@ def run_matrix(rep):
             ok = REAL if (t1 == t2 and _num(t1)) else BAD
             mx.call('Pow', mgr.Pow, [argterm(mgr, env, t1), c], {}, ok,
                     (t1, t2))
+    # constants as operands (constructors that fold constants must refuse
+    # the ill-sorted applications all the same)
+    for t1, c1 in consts.items():
+        for t2, c2 in consts.items():
+            if not mine():
+                continue
+            ok = REAL if (t1 == t2 and _num(t1)) else BAD
+            mx.call('Pow', mgr.Pow, [c1, c2], {}, ok, ('const', t1, t2))
+    for name, (n, sigf) in sorted(FIXED.items()):
+        if n > 2:
+            continue
+        for ts in tuples(n, rng, None):
+            if not all(t in consts for t in ts):
+                continue
+            for mask in range(1, 2 ** n):
+                if not mine():
+                    continue
+                args = [consts[t] if (mask >> i) & 1 else
+                        argterm(mgr, env, t, i) for i, t in enumerate(ts)]
+                mx.call(name, getattr(mgr, name), args, {}, sigf(list(ts)),
+                        ('const%d' % mask,) + tuple(ts))
     # indexed BV constructors
     for t in SORTS:
         x = argterm(mgr, env, t)
